@@ -110,7 +110,7 @@ def _roots_and_patterns(db, chk, m):
             tt = {sv: bool(T.evaluate(ck.rows, lambda leaf, sv=sv: sv if leaf == T.col(STK, "stream") else (_ for _ in ()).throw(T.Unknown(leaf)))) for sv in (-1, 1, 7)}
         except T.Unknown:
             tt = None
-    chk.ob("C16.R2-pattern", "kernels of an instance = the device rows of its stack (truth table over stream), in start-time order", okk and tt == {-1: False, 1: True, 7: True}, where,
+    chk.ob("C16.R2-pattern", "kernels of an instance = the device rows of its stack (truth table over stream), in start-time order", (okk and tt == {-1: False, 1: True, 7: True}) if isinstance(ck, Frame) else None, where,
            found={"table": tt, "order": T.show_order(ck.order) if isinstance(ck, Frame) else None}, accepted="stack.loc[stream != -1] sorted by ts ascending")
     cnt_ev = [e for e in r.events if e["kind"] == "dict-store" and e["func"].endswith("get_frequent_cuda_kernel_sequences") and e["value"] == T.C(1)]
     pat = cnt_ev[0]["key"] if len(cnt_ev) == 1 else T.opaque("pattern key not found")
